@@ -202,7 +202,139 @@ def oracle_schedules_bd(ctx):
                 samples=samples, failures=failures)
 
 
+# ------------------------------------------------------------------ caller-built BlockSeries from a dict the caller keeps
+
+
+def cd_problem(rng):
+    """exact 2-block problem given as a dictionary (i, j, *orders) -> block, as a caller would keep it"""
+    from fractions import Fraction as Fr
+
+    npar = rng.choice([1, 1, 2])
+    n0, n1 = rng.choice([(1, 1), (1, 2), (2, 2)])
+    sizes = [n0, n1]
+    E = [sorted(rng.sample(range(-4, 1), n0)), sorted(rng.sample(range(3, 9), n1))]
+
+    def herm_full():
+        N = n0 + n1
+        a = [[Fr(rng.randint(-3, 3), rng.choice([1, 2, 3])) for _ in range(N)] for _ in range(N)]
+        return [[a[i][j] + a[j][i] for j in range(N)] for i in range(N)]
+
+    def blocks(order, full):
+        off = [0, n0]
+        out = {}
+        for i in range(2):
+            for j in range(2):
+                out[",".join(map(str, (i, j) + order))] = [[str(full[off[i] + a][off[j] + b]) for b in range(sizes[j])] for a in range(sizes[i])]
+        return out
+
+    data = {}
+    zero_o = (0,) * npar
+    for i in range(2):
+        data[",".join(map(str, (i, i) + zero_o))] = [[str(E[i][a]) if a == b else "0" for b in range(sizes[i])] for a in range(sizes[i])]
+    for k in range(npar):
+        data.update(blocks(tuple(1 if q == k else 0 for q in range(npar)), herm_full()))
+    lazy = {}
+    for o in ([(2,)] if npar == 1 else [(1, 1), (2, 0)]):
+        if rng.random() < 0.8:
+            lazy.update(blocks(o, herm_full()))
+    return dict(npar=npar, sizes=sizes, data=data, lazy=lazy)
+
+
+def _cd_dict(tab):
+    import sympy
+
+    return {tuple(int(x) for x in k.split(",")): sympy.Matrix([[sympy.Rational(x) for x in row] for row in v]) for k, v in tab.items()}
+
+
+def _cd_series(prob, data, with_eval):
+    from pymablock.series import BlockSeries, zero
+
+    lazy = _cd_dict(prob["lazy"])
+
+    def ev(*idx):
+        return lazy.get(tuple(int(i) for i in idx), zero)
+
+    return BlockSeries(eval=ev if with_eval else None, data=data, shape=(2, 2), n_infinite=prob["npar"])
+
+
+def _cd_snapshot(d):
+    return {k: _canon(v) for k, v in d.items()}
+
+
+def _cd_get(outs, name, ix):
+    import warnings
+
+    with warnings.catch_warnings():
+        warnings.simplefilter("ignore")
+        try:
+            return _canon(dict(zip(OUTS, outs))[name][tuple(slice(None, x[1]) if isinstance(x, list) else x for x in ix)])
+        except Exception as e:  # noqa: BLE001
+            return ("exn", PG.exn_class(e))
+
+
+def cd_check(prob, sched):
+    """sched: list of (computation number, name, index).  Computations: 0 = A (dict only), 1 = B (same dict object,
+    plus an eval for further terms), 2 = C and 3 = D (two computations built from ONE BlockSeries object)"""
+    import warnings
+    from pymablock import block_diagonalize
+
+    with warnings.catch_warnings():
+        warnings.simplefilter("ignore")
+        mine = _cd_dict(prob["data"])
+        before = _cd_snapshot(mine)
+        A = block_diagonalize(_cd_series(prob, mine, False))
+        B = block_diagonalize(_cd_series(prob, mine, True))
+        shared = _cd_series(prob, _cd_dict(prob["data"]), True)
+        C = block_diagonalize(shared)
+        D = block_diagonalize(shared)
+        comps = [A, B, C, D]
+        evalness = [False, True, True, True]
+        if _cd_snapshot(mine) != before:
+            return "defining the computation modified the caller's dictionary of Hamiltonian terms"
+        for (c, name, ix) in sched:
+            got = _cd_get(comps[c], name, ix)
+            fresh = block_diagonalize(_cd_series(prob, _cd_dict(prob["data"]), evalness[c]))
+            ref = _cd_get(fresh, name, ix)
+            if got != ref:
+                return "computation %d: value of %s%s differs from a fresh computation built from an independent copy of the dictionary" % (c, name, ix)
+            after = _cd_snapshot(mine)
+            if after != before:
+                extra = sorted(set(after) - set(before))
+                return "the caller's dictionary of Hamiltonian terms was modified by a request (%s)" % (("new keys %s" % extra[:3]) if extra else "values changed")
+    return None
+
+
+def oracle_caller_dict(ctx):
+    rng = ctx.rng
+    evaluations = nontrivial = 0
+    failures, samples = [], []
+    for _ in range(ctx.n(12, 150)):
+        prob = cd_problem(rng)
+        orders = KS.all_orders(prob["npar"], 2)
+        sched = []
+        for _ in range(7):
+            ix = [rng.randrange(2), rng.randrange(2)] + list(rng.choice(orders))
+            if prob["npar"] == 1 and rng.random() < 0.25:
+                ix = ix[:2] + [["s", 3]]
+            sched.append((rng.randrange(4), rng.choice(OUTS), ix))
+        evaluations += 1
+        nontrivial += 1
+        try:
+            what = cd_check(prob, sched)
+        except (ValueError, NotImplementedError):
+            continue
+        if what:
+            failures.append(dict(what=what, input=dict(level="caller_dict", problem=prob, schedule=[list(x) for x in sched])))
+        if len(samples) < 1:
+            samples.append(dict(problem=prob, schedule=sched))
+    return dict(evaluations=evaluations, nontrivial=nontrivial,
+                rule="Hamiltonians given as caller-built BlockSeries(data=<dict the caller keeps>): 4 computations (2 from one dict object, 2 from one BlockSeries object), interleaved requests up to order 2 incl. slices, each compared with a fresh computation; the caller's dict compared with its deep copy after every request",
+                samples=samples, failures=failures)
+
+
 def replay_input(inp):
+    if inp.get("level") == "caller_dict":
+        return cd_check(inp["problem"], [tuple(x) for x in inp["schedule"]])
     if inp.get("level") == "block_diagonalize":
         return bd_check(inp["case"], [(n, ix) for n, ix in inp["schedule"]])
     p = [q for q in KS.shipped_programs() if q["name"] == inp["shipped"]][0]
